@@ -18,7 +18,8 @@ RULE = ('single-operation buckets (each public operation family first, then up t
         'points.  Non-trivial = D >= 4 (so that some 2 <= D\' < D exists) and some input coefficient of order >= D\'=2 is non-zero; '
         'distinct by descriptor hash')
 ASSUMPTIONS = [
-    'tolerance 1e-12 relative to max(1, max|coefficients of the register|); D\' = 1 vs plain NumPy execution 1e-12 as well',
+    'tolerance 1e-12 relative to max(1, max|coefficient layer of that order|) - per order, so that a vanishing low-order layer is seen next to huge high-order ones; D\' = 1 vs plain NumPy execution 1e-12',
+    'forward buckets admit kink points (abs/sign/clip at the kink, ties of minimum/maximum): truncation invariance does not need smoothness; fwd-growth buckets scale coefficient k by g^k (g up to 100, D up to 10) for bilinear operations',
     'raw eigenvectors are excluded (sign convention may depend on the sign of a zero); eigenvalues and sign-invariant expressions are included',
 ]
 TOL = 1e-12
@@ -37,7 +38,7 @@ def prop_forward(case, stats):
             b = M.reg_data(b)
             if b is None or b.shape != (Dp,) + a.shape[1:]:
                 raise Violation('register %d (%s): data shape %s with D=%d but %s with D=%d' % (i, M.opname(case, i), a.shape, D, getattr(b, 'shape', None), Dp))
-            M.close(b, a[:Dp], TOL, 'register %d (%s): coefficients computed with D\'=%d vs the first %d of D=%d' % (i, M.opname(case, i), Dp, Dp, D), stats)
+            M.close(b, a[:Dp], TOL, 'register %d (%s): coefficients computed with D\'=%d vs the first %d of D=%d' % (i, M.opname(case, i), Dp, Dp, D), stats, per_order=True)
     # D = 1 reproduces the plain function value.  (Not compared for programs that rewrite a buffer entry they have read:
     # NumPy hands out a scalar COPY for a full integer index where UTPM hands out a view, so the registers legitimately differ.)
     if 'rewrite-after-read' in PG.features(case):
@@ -71,9 +72,14 @@ def _nontrivial(case):
 
 def buckets(tier):
     bl = []
+    for fam in ('dot', 'dotc', 'outer', 'bin', 'bcast'):
+        bl.append(Bucket('fwd-growth:' + fam,
+                         (lambda fam=fam: M.meta_cases(tier, first=fam, families=['bin', 'neg', 'get', 'dot'], max_len=2, Dmin=3, Dmax=10, growth=True)),
+                         prop_forward, {'quick': 40, 'thorough': 300}, nontrivial=_nontrivial, classes=M.base_classes))
     for fam in M.FWD_SINGLE:
         bl.append(Bucket('fwd:' + fam, (lambda fam=fam: M.meta_cases(tier, first=fam, families=M.CHEAP_TAIL, max_len=3, Dmin=2)),
-                         prop_forward, {'quick': 20, 'thorough': 500}, nontrivial=_nontrivial, classes=M.base_classes))
+                         prop_forward, {'quick': 100 if fam in ('special', 'unp') else 20, 'thorough': 600}, nontrivial=_nontrivial,
+                         classes=M.base_classes))
     bl.append(Bucket('fwd:compose', (lambda: M.meta_cases(tier, max_len=8, Dmin=2)), prop_forward,
                      {'quick': 25, 'thorough': 600}, nontrivial=_nontrivial, classes=M.base_classes,
                      shards={'quick': 6, 'thorough': 12}, weight=4.0))
